@@ -233,14 +233,15 @@ ExecAttribute(ss, S, ins, nss0, parH) ==
      ELSE S
 
 (* copying an attribute node (xsl:copy / xsl:copy-of): cloneToResultTree ATTRIBUTE_NODE - the     *)
-(* QName is kept if its prefix is (or can be) bound to the attribute's namespace on the pending    *)
-(* element; if the prefix is in use there for another namespace the attribute gets an invented one *)
+(* QName is kept if its prefix is bound to the attribute's namespace or not bound at all (then it   *)
+(* is declared on the pending element); if it is bound to another namespace the attribute gets an  *)
+(* invented one - re-declaring the prefix would hide a namespace node of the element               *)
 (* (createFixedUpResultAttribute)                                                                  *)
 ExecCopyAttr(S, a) ==
   IF ~S.open THEN S
   ELSE LET bound == IF a.p = "" THEN Null ELSE NsForPrefix(S, a.p)
        IN IF a.p = "" \/ a.u = "" \/ a.p = "xmlns" \/ bound = a.u THEN AddResultAttr(S, a.p, a.l, a.v, TRUE)
-          ELSE IF bound = Null \/ ~IsPendingResultPrefix(S, a.p) THEN AddResultAttr(AddNsAttr(S, a.p, a.u), a.p, a.l, a.v, TRUE)
+          ELSE IF bound = Null THEN AddResultAttr(AddNsAttr(S, a.p, a.u), a.p, a.l, a.v, TRUE)
           ELSE LET U == Unique(S) IN AddResultAttr(AddNsAttr(U.S, U.prefix, a.u), U.prefix, a.l, a.v, FALSE)
 
 RECURSIVE ExecSets(_, _, _, _)
